@@ -99,6 +99,11 @@ def gen_case(rng, uid):
             elif fault == "import" and rng.random() < 0.4:
                 m["broken"] = "import-sibling"   # `from .helper_that_does_not_exist import X`: ModuleNotFoundError naming <pkg>.<x>
             applied = "import"
+    elif fault == "ctor" and len(eligible) >= 6 and rng.random() < 0.3:
+        # many failing constructors at once (a whole family of modes broken by one change)
+        for _m, c_ in rng.sample(eligible, 5):
+            c_["fail_ctor"] = True
+        applied = "ctor"
     elif fault == "ctor" and eligible:
         c_ = rng.choice(eligible)[1]
         c_["fail_ctor"] = True
@@ -118,7 +123,7 @@ def gen_case(rng, uid):
             if rng.random() < 0.15 and not (periods and not any(o_[0] == "disable" for o_ in periods[-1][1:])):
                 ops.append(["disable"])
             ops.append(["start"])
-            for _ in range(rng.choice([0, 1, 5, 20])):
+            for _ in range(rng.choice([0, 1, 5, 20]) if rng.random() > 0.01 else 3300):     # (rarely: more than a minute of 20 ms loops)
                 ops.append(["adv", rng.choice([0, 20000, 20000, 5000, rng.randrange(0, 100000)])])
                 ops.append(["periodic"])
             if rng.random() < 0.15:
